@@ -161,7 +161,14 @@ func (language *Language) CompilerPasses() compiler.Passes {
 		&compiler.DisjunctionToType{},
 		// members named after operators (`"<"`, `">"`) or names that only differ by case
 		&compiler.EnumMemberIdentifiers{Language: LanguageRef, Identifier: enumMemberIdentifier, EnumIdentifier: enumIdentifier},
+		// fields whose names only differ by their case or their separators (`user_id`, `userId`)
+		&compiler.StructFieldIdentifiers{Language: LanguageRef, Identifier: structFieldIdentifier},
 	}
+}
+
+// structFieldIdentifier gives the name of the field declared for a struct field.
+func structFieldIdentifier(field ast.StructField) string {
+	return formatFieldName(field.Name)
 }
 
 // enumIdentifier gives the name of the type declared for an enum.
